@@ -47,6 +47,11 @@ pub trait Read<'de>: private::Sealed {
     #[doc(hidden)]
     fn byte_offset(&self) -> usize;
 
+    /// Only valid after a call to peek(). Whether that call found the end of
+    /// the input.
+    #[doc(hidden)]
+    fn peeked_end(&self) -> bool;
+
     /// Assumes the previous byte was a quotation mark. Parses a string with
     /// R6RS escapes until the next quotation mark using the given scratch space
     /// if necessary. The scratch space is initially empty.
@@ -309,6 +314,10 @@ where
         }
     }
 
+    fn peeked_end(&self) -> bool {
+        self.ch.is_none()
+    }
+
     fn parse_r6rs_str<'s>(
         &'s mut self,
         scratch: &'s mut Vec<u8>,
@@ -351,7 +360,7 @@ where
     }
 
     fn parse_symbol<'s>(&'s mut self, scratch: &'s mut Vec<u8>) -> Result<Reference<'de, 's, str>> {
-        self.parse_symbol_bytes(scratch, as_str)
+        self.parse_symbol_bytes(scratch, as_symbol_str)
             .map(Reference::Copied)
     }
 }
@@ -588,6 +597,10 @@ impl<'a> Read<'a> for SliceRead<'a> {
         self.index
     }
 
+    fn peeked_end(&self) -> bool {
+        self.index >= self.slice.len()
+    }
+
     fn parse_r6rs_str<'s>(
         &'s mut self,
         scratch: &'s mut Vec<u8>,
@@ -603,7 +616,7 @@ impl<'a> Read<'a> for SliceRead<'a> {
     }
 
     fn parse_symbol<'s>(&'s mut self, scratch: &'s mut Vec<u8>) -> Result<Reference<'a, 's, str>> {
-        self.parse_symbol_bytes(scratch, as_str)
+        self.parse_symbol_bytes(scratch, as_symbol_str)
     }
 }
 
@@ -646,6 +659,10 @@ impl<'a> Read<'a> for StrRead<'a> {
 
     fn byte_offset(&self) -> usize {
         self.delegate.byte_offset()
+    }
+
+    fn peeked_end(&self) -> bool {
+        self.delegate.peeked_end()
     }
 
     fn parse_r6rs_str<'s>(
@@ -708,6 +725,18 @@ fn invalid_dot(at_eof: bool) -> ErrorCode {
 
 fn as_str<'de, 's, R: Read<'de>>(read: &R, slice: &'s [u8]) -> Result<&'s str> {
     str::from_utf8(slice).or_else(|_| error(read, ErrorCode::InvalidUnicodeCodePoint))
+}
+
+/// Like `as_str`, for a symbol that ends where the reader has just peeked: a
+/// UTF-8 sequence cut short by the end of input is incomplete, not invalid.
+fn as_symbol_str<'de, 's, R: Read<'de>>(read: &R, slice: &'s [u8]) -> Result<&'s str> {
+    str::from_utf8(slice).or_else(|e| {
+        if e.error_len().is_none() && read.peeked_end() {
+            error(read, ErrorCode::EofWhileParsingValue)
+        } else {
+            error(read, ErrorCode::InvalidUnicodeCodePoint)
+        }
+    })
 }
 
 fn as_char<'de, 's, R: Read<'de> + ?Sized>(read: &R, value: u32) -> Result<char> {
@@ -980,6 +1009,10 @@ fn parse_r6rs_char<'de, R: Read<'de> + ?Sized>(
         match decode_r6rs_char_hex_escape(read)? {
             Some(n) => match char::from_u32(n) {
                 Some(c) => Ok(c),
+                // A surrogate value becomes a scalar value with one more digit.
+                None if (0xD800..0xE000).contains(&n) && read.peek()?.is_none() => {
+                    error(read, ErrorCode::EofWhileParsingCharacterConstant)
+                }
                 None => error(read, ErrorCode::InvalidUnicodeCodePoint),
             },
             None => Ok('x'),
@@ -1023,9 +1056,32 @@ fn parse_r6rs_char<'de, R: Read<'de> + ?Sized>(
             b"esc" => Ok('\x1B'),
             b"space" => Ok(' '),
             b"delete" => Ok('\x7F'),
+            // At the end of input, the start of a name may just be incomplete.
+            name if read.peek()?.is_none() && is_char_name_prefix(name) => {
+                error(read, ErrorCode::EofWhileParsingCharacterConstant)
+            }
             _ => error(read, ErrorCode::InvalidCharacterConstant),
         }
     }
+}
+
+static CHAR_NAMES: [&[u8]; 12] = [
+    b"nul",
+    b"alarm",
+    b"backspace",
+    b"tab",
+    b"linefeed",
+    b"newline",
+    b"vtab",
+    b"page",
+    b"return",
+    b"esc",
+    b"space",
+    b"delete",
+];
+
+fn is_char_name_prefix(name: &[u8]) -> bool {
+    CHAR_NAMES.iter().any(|full| full.starts_with(name))
 }
 
 /// Expects a `#\x` sequence has just been consumed; returns the value of the
@@ -1227,7 +1283,8 @@ pub(crate) fn decode_utf8_sequence<'de, R: Read<'de> + ?Sized>(
     for _ in 0..len {
         let b = match read.next()? {
             Some(c) => c,
-            None => return error(read, ErrorCode::InvalidUnicodeCodePoint),
+            // The input ends inside the sequence.
+            None => return error(read, ErrorCode::EofWhileParsingValue),
         };
         scratch.push(b);
     }
